@@ -56,7 +56,9 @@ type VerifSemaSnap struct {
 	WaitB       int
 }
 
-func verifPeekWeighted(w *semaphore.Weighted) (size, cur int64, waiters int) {
+// verifWeightedFields returns the semaphore's mutex and a reader of (size, cur, len(waiters)); the reader must be
+// called with the mutex held.
+func verifWeightedFields(w *semaphore.Weighted) (*sync.Mutex, func() (size, cur int64, waiters int)) {
 	v := reflect.ValueOf(w).Elem()
 	fmu, fsize, fcur, fw := v.FieldByName("mu"), v.FieldByName("size"), v.FieldByName("cur"), v.FieldByName("waiters")
 	if !fmu.IsValid() || !fsize.IsValid() || !fcur.IsValid() || !fw.IsValid() ||
@@ -68,16 +70,35 @@ func verifPeekWeighted(w *semaphore.Weighted) (size, cur int64, waiters int) {
 		panic("verif: container/list.List changed shape (want field len int)")
 	}
 	mu := (*sync.Mutex)(unsafe.Pointer(fmu.UnsafeAddr()))
-	mu.Lock()
-	defer mu.Unlock()
-	return fsize.Int(), fcur.Int(), int(flen.Int())
+	return mu, func() (int64, int64, int) { return fsize.Int(), fcur.Int(), int(flen.Int()) }
 }
 
-// Snapshot reads both semaphores (each under its own mutex; interactive first).
+// Snapshot reads both semaphores, each under its own mutex (interactive first): two readings, not one instant.
 func (v *VerifSched) Snapshot() VerifSemaSnap {
 	var r VerifSemaSnap
-	r.SizeI, r.CurI, r.WaitI = verifPeekWeighted(v.s.semInteractive.sem)
-	r.SizeB, r.CurB, r.WaitB = verifPeekWeighted(v.s.semBatch.sem)
+	muI, rdI := verifWeightedFields(v.s.semInteractive.sem)
+	muI.Lock()
+	r.SizeI, r.CurI, r.WaitI = rdI()
+	muI.Unlock()
+	muB, rdB := verifWeightedFields(v.s.semBatch.sem)
+	muB.Lock()
+	r.SizeB, r.CurB, r.WaitB = rdB()
+	muB.Unlock()
+	return r
+}
+
+// SnapshotAtomic reads both semaphores at one instant: both mutexes are held while reading (no code path of the
+// scheduler or of semaphore.Weighted holds one of them while taking the other, so this cannot deadlock).
+func (v *VerifSched) SnapshotAtomic() VerifSemaSnap {
+	var r VerifSemaSnap
+	muI, rdI := verifWeightedFields(v.s.semInteractive.sem)
+	muB, rdB := verifWeightedFields(v.s.semBatch.sem)
+	muI.Lock()
+	muB.Lock()
+	r.SizeI, r.CurI, r.WaitI = rdI()
+	r.SizeB, r.CurB, r.WaitB = rdB()
+	muB.Unlock()
+	muI.Unlock()
 	return r
 }
 
@@ -125,7 +146,7 @@ func (p *VerifProc) Yielded() bool { return p.p.yieldTimer == nil }
 // VerifParseTuneables exposes parseTuneables.
 func VerifParseTuneables(v string) map[string]int { return parseTuneables(v) }
 
-// VerifSchedOf returns the scheduler of a searcher built by VerifNewShardedSearcher.
+// Sched returns the scheduler of the sharded searcher (it must be a multiScheduler).
 func (v *VerifSharded) Sched() *VerifSched {
 	ms, ok := v.ss.sched.(*multiScheduler)
 	if !ok {
